@@ -508,6 +508,12 @@ package jd
 //@   ensures_bounded ret0
 //@   carries C06
 
+//@ contract verifRecurses
+//@   bounded
+//@   universe code verifIndexRange(625)
+//@   ensures_bounded ret0 == ""
+//@   carries C06
+
 //@ contract verifContextAdjacent
 //@   bounded
 //@   requires validNode(a) && validNode(b)
@@ -627,6 +633,25 @@ package jd
 //@   universe a verifNestedBags(6)
 //@   universe b verifNestedBags(6)
 //@   universe c verifNestedBags(6)
+//@   universe options [][]Option{{SET}, {MULTISET}}
+//@   ensures_bounded ret0
+//@   carries C08
+
+//@ contract verifBagScalars
+//@   bounded
+//@   cap 200000 3000000
+//@   universe a verifSpelledScalarArrays()
+//@   universe b verifSpelledScalarArrays()
+//@   universe c verifSpelledScalarArrays()
+//@   universe options [][]Option{{SET}, {MULTISET}}
+//@   ensures_bounded ret0
+//@   carries C08
+
+//@ contract verifHandHunk
+//@   bounded
+//@   universe rm verifSmallArrays(2)
+//@   universe ad verifSmallArrays(2)
+//@   universe c verifSmallArrays(3)
 //@   universe options [][]Option{{SET}, {MULTISET}}
 //@   ensures_bounded ret0
 //@   carries C08
@@ -794,7 +819,11 @@ package jd
 //@   universe b verifScaleB()
 //@   zip a b
 //@   requires validNode(a) && validNode(b)
-//@   ensures_bounded ret0 == ""
+//@   ensures_bounded [C01] !verifTagged(ret0, "C01")
+//@   ensures_bounded [C02] !verifTagged(ret0, "C02")
+//@   ensures_bounded [C09] !verifTagged(ret0, "C09")
+//@   ensures_bounded [C11] !verifTagged(ret0, "C11")
+//@   ensures_bounded [C16] !verifTagged(ret0, "C16")
 //@   carries C01 C02 C09 C11 C16
 
 //@ contract verifScaleLists
@@ -803,8 +832,75 @@ package jd
 //@   universe b verifScaleListB()
 //@   zip a b
 //@   requires validNode(a) && validNode(b)
-//@   ensures_bounded ret0 == ""
+//@   ensures_bounded [C01] !verifTagged(ret0, "C01")
+//@   ensures_bounded [C06 C07] ret0 == "" || verifTagged(ret0, "C01")
 //@   carries C06 C07 C01
+
+//@ contract verifHashShapes
+//@   bounded
+//@   universe a verifHashShapeDocs()
+//@   universe b verifHashShapeDocs()
+//@   universe options [][]Option{{}, {SET}, {MULTISET}, {MERGE}}
+//@   requires validNode(a) && validNode(b)
+//@   ensures_bounded [C04] a.Equals(b, options...) == specEq(a, b, verifEqualOptions(options))
+//@   ensures_bounded [C05] verifDomain(a, b, options) ==> (len(ret0) == 0) == specEq(a, b, verifEqualOptions(options))
+//@   ensures_bounded [C01] verifDomain(a, b, options) ==> verifPatchGives(a, ret0, b, options)
+//@   carries C04 C05 C01
+
+//@ contract verifMediumLists
+//@   bounded
+//@   universe a verifMediumArraysA(TIER)
+//@   universe b verifMediumArraysB(TIER)
+//@   zip a b
+//@   ensures_bounded ret0 == ""
+//@   carries C06 C07
+
+//@ contract verifDeepSiblings
+//@   bounded
+//@   universe a verifDeepSiblingA()
+//@   universe b verifDeepSiblingB()
+//@   zip a b
+//@   requires validNode(a) && validNode(b)
+//@   ensures_bounded [C01] !verifTagged(ret0, "C01")
+//@   ensures_bounded [C05] !verifTagged(ret0, "C05")
+//@   ensures_bounded [C07] !verifTagged(ret0, "C07")
+//@   ensures_bounded [C11] !verifTagged(ret0, "C11")
+//@   carries C01 C05 C07 C11
+
+//@ contract verifCLIBigMembers
+//@   bounded
+//@   needs_cli
+//@   cap 120 1200
+//@   universe a verifBigMemberDocs()
+//@   universe b verifBigMemberDocs()
+//@   universe fi []int{1, 2, 3, 12}
+//@   requires validNode(a) && validNode(b)
+//@   ensures_bounded ret0 == ""
+//@   carries C14 C15
+
+//@ contract verifNumberEdges
+//@   bounded
+//@   universe a verifNumberEdgeDocs()
+//@   universe b verifNumberEdgeDocs()
+//@   requires validNode(a) && validNode(b)
+//@   ensures_bounded [C01] !verifTagged(ret0, "C01")
+//@   ensures_bounded [C02] !verifTagged(ret0, "C02")
+//@   ensures_bounded [C05] !verifTagged(ret0, "C05")
+//@   ensures_bounded [C09] !verifTagged(ret0, "C09")
+//@   ensures_bounded [C11] !verifTagged(ret0, "C11")
+//@   ensures_bounded [C16] !verifTagged(ret0, "C16")
+//@   carries C01 C02 C05 C09 C11 C16
+
+//@ contract verifCLINumbers
+//@   bounded
+//@   needs_cli
+//@   cap 300 300
+//@   universe a []JsonNode{jsonObject{"id": jsonNumber(1)}, jsonArray{jsonNumber(1)}}
+//@   universe b verifNumberEdgeDocs()
+//@   universe fi []int{0, 7}
+//@   requires validNode(a) && validNode(b)
+//@   ensures_bounded ret0 == ""
+//@   carries C14
 
 //@ contract verifScaleCLI
 //@   bounded
@@ -863,7 +959,7 @@ package jd
 //@   needs_cli
 //@   universe i []int{0, 1, 2, 3, 4, 5, 6, 7, 8, 9}
 //@   ensures_bounded ret0 == ""
-//@   carries C14 C12 C10
+//@   carries C14
 
 //@ contract verifCLITranslate
 //@   bounded
